@@ -91,6 +91,18 @@ Fixpoint run_print (setter : bool) (s : sst) (ops : list str) : str :=
       end
   end.
 
+(* cpset <from> <to> <x1> <x2>: the membership table of the set built by include(from, to); exclude(x1);
+   include({x2}); copy() - 64 hex digits, digit d covers code points 4d..4d+3 (bit i = code point 4d+i) *)
+Definition cpset_member (from to x1 x2 c : N) : bool :=
+  ((from <=? c) && (c <=? to) && negb (c =? x1)) || (c =? x2).
+Fixpoint cpset_digits (from to x1 x2 : N) (d : N) (fuel : nat) : str :=
+  match fuel with
+  | O => []
+  | S f =>
+      let b i := if cpset_member from to x1 x2 (4 * d + i) then N.shiftl 1 i else 0 in
+      hex_digit_upper (b 0 + b 1 + b 2 + b 3) :: cpset_digits from to x1 x2 (d + 1) f
+  end.
+
 Definition ser_line (line : str) : option str :=
   match split_spaces line with
   | c :: args =>
@@ -104,6 +116,12 @@ Definition ser_line (line : str) : option str :=
               Some (lit "ser" ++ run_print (tok_is tm "T") (init_sst r (tok_is tfile "1")) ops)
           | None => Some (lit "ERR bad-norm")
           end
+      | _ => Some (lit "ERR bad-arity")
+      end
+    else if tok_is c "cpset" then
+      match args with
+      | [t1; t2; t3; t4] =>
+          Some (lit "cpset " ++ cpset_digits (dec_of t1 mod 256) (dec_of t2 mod 256) (dec_of t3 mod 256) (dec_of t4 mod 256) 0 64)
       | _ => Some (lit "ERR bad-arity")
       end
     else None
